@@ -85,6 +85,18 @@ theorem pop_spec (now : Val) (f : String) (fs : Fields) (xs : List Val) (h : dge
     runUpdater .pop now (.doc fs) f (.int (-1)) = .ok (.doc (dset f (.arr (xs.drop 1)) fs)) :=
   Proofs.C02.pop_spec now f fs xs h
 
+/-- … and `$pop` of a path the document does not hold leaves the document alone: a missing
+    top-level field, and a dotted path whose first sub-document is missing (nothing is created on
+    the way, whatever the operand).  (Repaired defect `pop-missing-refused`: it used to raise
+    KeyError, after creating the parents.) -/
+theorem pop_missing_noop (now : Val) (f : String) (fs : Fields) (h : dget f fs = none) :
+    runUpdater .pop now (.doc fs) f (.int 1) = .ok (.doc fs) ∧
+    runUpdater .pop now (.doc fs) f (.int (-1)) = .ok (.doc fs) ∧
+    (∀ (v : Val) (q : String) (rest : List String),
+      updateSingleField .pop now v (f :: q :: rest) (.doc fs) = .ok (.doc fs)) :=
+  ⟨(Proofs.C02Lemmas.pop_missing_field now f fs h).1, (Proofs.C02Lemmas.pop_missing_field now f fs h).2,
+   fun v q rest => Proofs.C02Lemmas.pop_missing_parent now v f q rest fs h⟩
+
 /-- `$rename` moves the value under the new name and removes the old one. -/
 theorem rename_spec (src dst : String) (fs : Fields) (x : Val)
     (hs : src.toList.contains '.' = false) (hd : dst.toList.contains '.' = false)
@@ -173,6 +185,25 @@ theorem addToSet_clause_test (vs : Fields) :
 theorem pullAll_spec (xs vs : List Val) :
     pullAllValue (.arr xs) (.arr vs) = .ok (.arr (xs.filter (fun o => !pyIn o vs))) :=
   Proofs.C02.pullAll_spec xs vs
+
+/-- `$pullAll` through a path that ends in the index of an array item (`c.0` on `c: [[…], …]`):
+    the listed values are removed from that item, the other items stay; an index past the end
+    reaches nothing.  (Repaired defect `pullall-array-element`: nothing used to be pulled.) -/
+theorem pullAll_array_item_spec (xs vs : List Val) (last : String) (i : Nat)
+    (hd : isDigits last = true) (hi : pyInt? last = some (i : Int)) :
+    (∀ ys, xs[i]? = some (.arr ys) →
+      pullAllAt (.arr vs) (.arr xs) last =
+        .ok (.arr (xs.set i (.arr (ys.filter (fun o => !pyIn o vs)))))) ∧
+    (xs[i]? = none → pullAllAt (.arr vs) (.arr xs) last = .ok (.arr xs)) :=
+  Proofs.C02Lemmas.pullAllAt_item xs vs last i hd hi
+
+/-- … and through a path whose last container is neither a sub-document nor an array (a scalar,
+    null, a string): nothing to pull from, the container stays.  (Repaired defect
+    `pullall-through-scalar-refused`: it used to raise TypeError.) -/
+theorem pullAll_through_scalar_noop (value parent : Val) (last : String)
+    (hp : ∀ fs, parent ≠ .doc fs) (ha : ∀ xs, parent ≠ .arr xs) :
+    pullAllAt value parent last = .ok parent :=
+  Proofs.C02Lemmas.pullAllAt_scalar value parent last hp ha
 
 /-- `$pull` of a scalar from an array of scalars removes exactly the equal elements. -/
 theorem pull_spec (v : Val) (xs : List Val) (hv : isScalar v = true) (hx : xs.all isScalar = true) :
@@ -303,6 +334,19 @@ private def okIs (r : R Val) (v : Val) : Bool :=
   match r with
   | .ok x => x == v
   | .error _ => false
+
+/-- the witnesses of the three repaired defects, as whole updates: `{$pullAll: {'c.0': [0]}}` on
+    `c: [[-1, 0], 2]`, `{$pullAll: {'d.c': [1]}}` on `d: 2`, `{$pop: {b: 1}}` and `{$pop: {'b.x': 1}}`
+    on a document without `b` (no `b: {}` is left behind) -/
+example :
+    okIs (applyUpdate (.doc []) (.doc [("$pullAll", .doc [("c.0", .arr [.int 0])])]) .null false
+        (.doc [("_id", .int 1), ("c", .arr [.arr [.int (-1), .int 0], .int 2])]))
+      (.doc [("_id", .int 1), ("c", .arr [.arr [.int (-1)], .int 2])]) = true ∧
+    okIs (applyUpdate (.doc []) (.doc [("$pullAll", .doc [("d.c", .arr [.int 1])])]) .null true
+        (.doc [("_id", .int 7), ("d", .int 2)])) (.doc [("_id", .int 7), ("d", .int 2)]) = true ∧
+    okIs (applyUpdate (.doc []) (.doc [("$pop", .doc [("b", .int 1), ("b.x", .int 1)])]) .null true
+        (.doc [("d", .str "x")])) (.doc [("d", .str "x")]) = true ∧
+    isDigits "0" = true ∧ pyInt? "0" = some 0 := by decide +kernel
 
 /-- `$set` group: a `$set` through a missing sub-document and past the end of an array; the path
     is `writable` and afterwards reads the value (hypotheses and conclusion of `set_get`) -/
